@@ -866,7 +866,13 @@ func parseBinOps(expr string, n *promParser.BinaryExpr) (src []Source) {
 			var rhsConditional bool
 			before := labelSnapshot(s)
 			if n.VectorMatching.On {
-				s = includeLabel(s, n.VectorMatching.MatchingLabels...)
+				// and / or / unless keep the labels of the left hand side as they are: on(...) cannot
+				// add a label to a side that cannot have it.
+				for _, name := range n.VectorMatching.MatchingLabels {
+					if before.CanHaveLabel(name) {
+						s = includeLabel(s, name)
+					}
+				}
 			}
 			if s.Operation == "" {
 				s.Operation = n.VectorMatching.Card.String()
